@@ -125,16 +125,24 @@ func buildChain(spec chainSpec) (cc *chainCtx, err error) {
 	var allTxs []types.Tx
 	ctr := 0
 	model := map[string]string{} // the application's key/value state, modelled from the tx grammar
+	// every chain has a block of each size 1..9 (all the tree shapes of small blocks), at seed-chosen heights
+	forced := map[int]int{}
+	for s, n := range rand.New(rand.NewSource(spec.Seed ^ 0x5eed)).Perm(spec.N)[:9] {
+		forced[n] = s + 1
+	}
 	for n := 0; n < spec.N; n++ {
 		h := ch.NextHeight()
 		var plan chaingen.StepPlan
-		ntx := r.Intn(6)
+		ntx := r.Intn(8)
 		if r.Intn(4) == 0 {
 			ntx = 0
 		}
+		if f, ok := forced[n]; ok {
+			ntx = f
+		}
 		valTouched := map[string]bool{}
 		removals := 0
-		for i := 0; i < ntx; i++ {
+		for tries := 0; len(plan.Txs) < ntx && tries < 10*ntx+10; tries++ {
 			ctr++
 			switch k := r.Intn(20); {
 			case k < 11:
